@@ -124,3 +124,107 @@ example (E : Env) (h1 : E.opts.memoize = false) (h2 : E.opts.maxExpr = none)
 
 end RT
 end PV
+
+/-! ### the laws of PEG matching, read off the specification
+
+  `Spec.eval` is short enough to read, and these are the laws a PEG user relies on, stated for an
+  arbitrary semantics `rec` of the sub-expressions (so at every depth). By `C01_runtime_is_peg` they
+  are laws of the runtime in the plain configuration. -/
+
+namespace PV
+namespace Spec
+
+variable (E : Env) (rec : Ctx → Expr → List (String × Val) → Savepoint → World → Res)
+
+/-- **ordered choice commits to the first alternative that matches**: later alternatives are not
+    looked at, the value and the end position are that alternative's, labels bound inside it are
+    not visible outside -/
+theorem C01_law_choice_first_match (c : Ctx) (e : Expr) (es : List Expr) (env : List (String × Val)) (pt : Savepoint)
+    (w : World) (v : Val) (pt' : Savepoint) (env' : List (String × Val)) (w' : World)
+    (h : rec c e [] pt w = .ok v pt' env' w') :
+    evalChoice E rec c (e :: es) env pt w = .ok v pt' env w' := by
+  simp [evalChoice, h]
+
+/-- ... and when the first alternative fails the choice is the choice of the rest, evaluated at the
+    SAME position with the state store rolled back (errors recorded meanwhile stay) -/
+theorem C01_law_choice_skip_failed (c : Ctx) (e : Expr) (es : List Expr) (env : List (String × Val)) (pt : Savepoint)
+    (w : World) (env' : List (String × Val)) (w' : World) (h : rec c e [] pt w = .fail env' w') :
+    evalChoice E rec c (e :: es) env pt w = evalChoice E rec c es env pt (rollback E w' w.state) := by
+  simp [evalChoice, h]
+
+theorem C01_law_choice_empty_fails (c : Ctx) (env : List (String × Val)) (pt : Savepoint) (w : World) :
+    evalChoice E rec c [] env pt w = .fail env w := rfl
+
+/-- **sequence**: the first failing item fails the whole sequence; the state store is the one from
+    before the sequence -/
+theorem C01_law_seq_fails_at_first_failure (c : Ctx) (st0 : Store) (e : Expr) (es : List Expr) (env : List (String × Val))
+    (pt : Savepoint) (w : World) (acc : List Val) (env' : List (String × Val)) (w' : World)
+    (h : rec c e env pt w = .fail env' w') :
+    evalSeq E rec c st0 (e :: es) env pt w acc = .fail env' (rollback E w' st0) := by
+  simp [evalSeq, h]
+
+/-- ... a matching item hands its end position, its label bindings and its world to the next one,
+    and contributes one element to the value -/
+theorem C01_law_seq_continues (c : Ctx) (st0 : Store) (e : Expr) (es : List Expr) (env : List (String × Val))
+    (pt : Savepoint) (w : World) (acc : List Val) (v : Val) (pt' : Savepoint) (env' : List (String × Val)) (w' : World)
+    (h : rec c e env pt w = .ok v pt' env' w') :
+    evalSeq E rec c st0 (e :: es) env pt w acc = evalSeq E rec c st0 es env' pt' w' (v :: acc) := by
+  simp [evalSeq, h]
+
+theorem C01_law_seq_empty_matches (c : Ctx) (st0 : Store) (env : List (String × Val)) (pt : Savepoint) (w : World) (acc : List Val) :
+    evalSeq E rec c st0 [] env pt w acc = .ok (.list acc.reverse) pt env w := rfl
+
+/-- **greedy repetition**: an iteration that matches is always taken (no backtracking into `*`/`+`) -/
+theorem C01_law_loop_takes_every_match (c : Ctx) (e : Expr) (k : Nat) (env : List (String × Val)) (pt : Savepoint) (w : World)
+    (acc : List Val) (v : Val) (pt' : Savepoint) (env' : List (String × Val)) (w' : World)
+    (h : rec c e [] pt w = .ok v pt' env' w') :
+    evalLoop rec c e (k + 1) env pt w acc = evalLoop rec c e k env pt' w' (v :: acc) := by
+  simp [evalLoop, h]
+
+/-- ... and it stops at the first iteration that fails, at the position before that iteration -/
+theorem C01_law_loop_stops_at_failure (c : Ctx) (e : Expr) (k : Nat) (env : List (String × Val)) (pt : Savepoint) (w : World)
+    (acc : List Val) (env' : List (String × Val)) (w' : World) (h : rec c e [] pt w = .fail env' w') :
+    evalLoop rec c e (k + 1) env pt w acc =
+      (if acc.isEmpty then .fail env w' else .ok (.list acc.reverse) pt env w') := by
+  simp [evalLoop, h]
+
+/-- `e*` never fails: zero iterations give the empty list at the same position -/
+theorem C01_law_star_of_failing_body (k id : Nat) (c : Ctx) (e : Expr) (env : List (String × Val)) (pt : Savepoint) (w : World)
+    (env' : List (String × Val)) (w' : World) (h : rec c e [] pt w = .fail env' w') :
+    evalStep E rec (k + 1) c (.zeroOrMore id e) env pt w = .ok (.list []) pt env w' := by
+  simp [evalStep, evalLoop, h]
+
+/-- `e?` never fails: `nil` at the same position when `e` does not match -/
+theorem C01_law_opt_of_failing_body (k id : Nat) (c : Ctx) (e : Expr) (env : List (String × Val)) (pt : Savepoint) (w : World)
+    (env' : List (String × Val)) (w' : World) (h : rec c e [] pt w = .fail env' w') :
+    evalStep E rec k c (.zeroOrOne id e) env pt w = .ok .nil pt env w' := by
+  simp [evalStep, h]
+
+/-- `&e` matches exactly when `e` does, `!e` exactly when it does not; both consume nothing, yield
+    nil, bind nothing, and leave the state store as it was before -/
+theorem C01_law_and_pred (k id : Nat) (c : Ctx) (e : Expr) (env : List (String × Val)) (pt : Savepoint) (w : World)
+    (v : Val) (pt' : Savepoint) (env' : List (String × Val)) (w' : World) (h : rec c e [] pt w = .ok v pt' env' w') :
+    evalStep E rec k c (.and id e) env pt w = .ok .nil pt env (rollback E w' w.state) ∧
+    evalStep E rec k c (.not id e) env pt w = .fail env (rollback E w' w.state) := by
+  simp [evalStep, h]
+
+theorem C01_law_not_pred (k id : Nat) (c : Ctx) (e : Expr) (env : List (String × Val)) (pt : Savepoint) (w : World)
+    (env' : List (String × Val)) (w' : World) (h : rec c e [] pt w = .fail env' w') :
+    evalStep E rec k c (.not id e) env pt w = .ok .nil pt env (rollback E w' w.state) ∧
+    evalStep E rec k c (.and id e) env pt w = .fail env (rollback E w' w.state) := by
+  simp [evalStep, h]
+
+/-- a labelled expression yields the labelled value and adds exactly one binding to the scope -/
+theorem C01_law_labeled_binds (k id : Nat) (l : String) (hl : l ≠ "") (c : Ctx) (e : Expr) (env : List (String × Val))
+    (pt : Savepoint) (w : World) (v : Val) (pt' : Savepoint) (env' : List (String × Val)) (w' : World)
+    (h : rec c e [] pt w = .ok v pt' env' w') :
+    evalStep E rec k c (.labeled id l e) env pt w = .ok v pt' ((l, v) :: env) w' := by
+  simp [evalStep, h, hl]
+
+/-- the any matcher and classes never match at end of input -/
+theorem C01_law_any_fails_at_eof (k id : Nat) (c : Ctx) (env : List (String × Val)) (pt : Savepoint) (w : World)
+    (h : atEOF pt = true) : evalStep E rec k c (.any id) env pt w = .fail env w := by
+  simp [evalStep, h]
+
+end Spec
+end PV
